@@ -524,9 +524,18 @@ func (e *Engine) verifyFunction(key string, ct *Contract) (res *FuncResult) {
 		if ct.NoReturn {
 			vc.oblige(r.st, "NORETURN", fmt.Sprintf("ret%d", ri+1), "false", key, "function is declared noreturn")
 		}
-		// reachability of the exit (vacuity guard): must NOT be provable unreachable
-		g := r.st.guard
-		vc.obls = append(vc.obls, &Obligation{Name: fmt.Sprintf("%s/VACUITY/exit%d", key, ri+1), Kind: "VACUITY", Fn: key, Prefix: len(vc.lines), Goal: not(g), Expect: "notunsat", vc: vc, Tags: ct.Tags, Desc: "normal exit is reachable under the hypotheses"})
+	}
+	// reachability of some normal exit (vacuity guard): must NOT be provable unreachable
+	{
+		var gs []Term
+		for _, r := range f.rets {
+			if !r.st.dead {
+				gs = append(gs, r.st.guard)
+			}
+		}
+		if len(gs) > 0 {
+			vc.obls = append(vc.obls, &Obligation{Name: fmt.Sprintf("%s/VACUITY/exit", key), Kind: "VACUITY", Fn: key, Prefix: len(vc.lines), Goal: not(or(gs...)), Expect: "notunsat", vc: vc, Tags: ct.Tags, Desc: "some normal exit is reachable under the hypotheses"})
+		}
 	}
 	if !anyRet && !ct.NoReturn && len(ct.Ensures) > 0 {
 		vc.errs = append(vc.errs, fmt.Sprintf("%s: no reachable return", key))
